@@ -38,6 +38,8 @@ structure Env where
   levelOf : Sym → Option Nat
   /-- what data map `d` decrypts to (= what was encrypted) -/
   srcOf : Nat → Option Sym
+  /-- the i-th encrypted chunk of data map `d` (repeated content gives byte-identical chunks: one term, one address) -/
+  chunkOf : Nat → Nat → Sym := Sym.ech
 
 def symLen (E : Env) : Sym → Nat
   | .raw id => E.rawLen id
@@ -61,13 +63,13 @@ def symSE (E : Env) : SE Sym Nat where
     | none => none
     | some d => match E.nOf d with
       | none => none
-      | some n => some (d, (List.range n).map (Sym.ech d))
+      | some n => some (d, (List.range n).map (E.chunkOf d))
   infos d := match E.nOf d with
     | none => []
-    | some n => (List.range n).map (fun i => (Sym.ech d i).code)
+    | some n => (List.range n).map (fun i => (E.chunkOf d i).code)
   dec d chunks := match E.nOf d with
     | none => none
-    | some n => if sortIdx chunks = (List.range n).map (fun i => (i, Sym.ech d i)) then E.srcOf d else none
+    | some n => if sortIdx chunks = (List.range n).map (fun i => (i, E.chunkOf d i)) then E.srcOf d else none
   wrap a d := .wrap a d
   unwrap
     | .wrap a d => some (a, d)
@@ -163,6 +165,26 @@ def step (_ : Unit) (ws : List String) : Unit × String :=
         | .ok d => ((), if d = .raw 0 then "ok same" else "ok different")
         | .error e => ((), s!"err {getErrName e}")
     | _, _, _, _ => ((), "bad-op")
+  | "put" :: rest =>
+    match (field "max" rest).bind String.toNat?, (field "len" rest).bind String.toNat?, (field "tab" rest).bind parseTab,
+          field "entry" rest with
+    | some max, some len, some tab, some entry =>
+      let e? : Option Entry := if entry = "private" then some .dataPut else if entry = "public" then some .dataPutPublic
+        else if entry = "cost" then some .dataCost else none
+      match e? with
+      | none => ((), "bad-op")
+      | some e =>
+        let S := symSE (packEnv len tab)
+        -- an entry point that does not pass the bytes on unchanged is outside what the driver can predict: `pre` = identity
+        match putEntry S max fuel id e (.raw 0) with
+        | .error .selfEncryption => ((), "err selfenc")
+        | .error .outOfFuel => ((), "err fuel")
+        | .ok (dmc, chunks) =>
+          if e = .dataCost then ((), "ok priced") else
+          match fetchFromDataMapChunk S (storeGet chunks) fuel [] dmc.value with
+          | .ok d => ((), if d = .raw 0 then "ok same" else "ok different")
+          | .error err => ((), s!"ok unreadable:{getErrName err}")
+    | _, _, _, _ => ((), "bad-op")
   | _ => ((), "bad-op")
 
 /-- Inputs on which the regenerated model contradicts the round trip (replayed on the real code when a proof breaks);
@@ -172,7 +194,11 @@ def searchCandidates : List String :=
   let tabs : List (Nat × List (Nat × Nat)) :=
     [(900, [(3, 330), (3, 330)]), (2000, [(5, 520), (3, 330), (3, 330)]), (6000, [(15, 1500), (4, 430), (3, 330), (3, 330)]),
      (24000, [(60, 6000), (15, 1500), (4, 430), (3, 330), (3, 330)])]
-  tabs.filterMap fun (len, tab) =>
+  let entryCands : List String :=
+    [(Entry.dataPut, "private"), (Entry.dataPutPublic, "public"), (Entry.dataCost, "cost")].flatMap fun (e, name) =>
+      if e.passesBytesUnchanged then [] else
+        [0, 1, 2].map fun len => s!"put max=? len={len} fill=c97 entry={name} tab=?"
+  entryCands ++ tabs.filterMap fun (len, tab) =>
     let S := symSE (packEnv len tab)
     match encrypt S 400 fuel (.raw 0) with
     | .error _ => some s!"fetch max=? len={len} fill=r1 tab=? codes=-"
